@@ -68,7 +68,7 @@ def _gen_script(rng, i):
     s['pool'] = {'max_watermark': rng.choice([1, 1, 2]), 'min_watermark': rng.choice([0, 1]),
                  'max_queue_len': rng.choice([0, 1, 2, 1000])}
   template = rng.choice(['random', 'random', 'preopen', 'queue', 'connect', 'latereply', 'faults', 'members', 'sendq', 'pingrace',
-                         'agedtags' if kind == 'mux' else 'random'])
+                         'agedtags' if kind == 'mux' else 'random', 'opentick', 'emptyset', 'bigstall'])
   steps = s['steps']
   nc = [0]
 
@@ -116,6 +116,68 @@ def _gen_script(rng, i):
     issue(rng.choice([23, 53, 107]))
     steps.append(['adv', rng.choice([10, 100])])
     issue(rng.choice([53, 107]))
+  elif template == 'bigstall':
+    # the peer stops reading; a request (small, or tens of KiB: above the transports' size thresholds) whose
+    # deadline is shorter than the stall is handed in: its write blocks part-way and the deadline fires inside
+    # that very write; afterwards the connection is used again
+    s['nep'] = 1
+    s['plans'] = [['ok', 0]]
+    steps.append(['adv', 300])
+    if rng.random() < 0.5:
+      issue(1003)
+      steps.append(['adv', 10])
+    stall = rng.choice([200, 800])
+    steps.append(['stall', stall])
+    nc[0] += 1
+    steps.append(['issue', nc[0], rng.choice([23, 53, 107]), rng.choice([0, 100, 16500, 20000, 66000])])
+    if rng.random() < 0.5:
+      nc[0] += 1
+      steps.append(['issue', nc[0], rng.choice([53, 1003]), rng.choice([0, 0, 16500])])
+    steps.append(['adv', stall + 50])
+    issue(rng.choice([203, 1003]))
+    issue(rng.choice([203, 1003]))
+    steps.append(['adv', 20])
+    steps += [['reply', 0], ['reply', 0], ['reply', 0], ['adv', 50]]
+  elif template == 'emptyset':
+    # every member leaves the server set while several calls with different deadlines are in flight on it
+    # (and maybe comes back): the calls still complete on time
+    steps.append(['adv', rng.choice([50, 300])])
+    for _ in range(rng.randint(2, 4)):
+      issue(rng.choice([53, 107, 203, 507, 1003]))
+      if rng.random() < 0.5:
+        steps.append(['adv', rng.choice([10, 20, 50])])
+    order = list(range(nep))
+    rng.shuffle(order)
+    for i in order:
+      steps.append(['leave', i])
+      if rng.random() < 0.3:
+        steps.append(['stepq', rng.randint(1, 4)])
+    if rng.random() < 0.4:
+      issue(rng.choice([53, 203]))
+    if rng.random() < 0.5:
+      steps.append(['adv', rng.choice([30, 100])])
+      steps.append(['join', rng.randint(0, 3)])
+      issue()
+    steps.append(['adv', 100])
+  elif template == 'opentick':
+    # a call issued before the client has opened; the open completes in the very instant in which the
+    # call's timer comes due (rounded up to the 10 ms tick), or one tick earlier / later, with the timers of
+    # that instant firing in start order or in a scripted order
+    s['open_timeout'] = 0
+    s['nep'] = 1
+    T1 = rng.choice([23, 53, 107])
+    tick = ((T1 + 9) // 10) * 10 + rng.choice([0, 0, 0, -10, 10])
+    if kind == 'mux' and rng.random() < 0.7:
+      s['plans'] = [['ok', rng.choice([0, 10])]]
+      s['ping_delay'] = tick - s['plans'][0][1]
+    else:
+      s['plans'] = [['ok', tick]]
+    s['tiebreak'] = rng.choice([None, rng.randint(0, 999)])
+    s['libev'] = rng.random() < 0.7
+    issue(T1)
+    if rng.random() < 0.5:
+      issue(rng.choice([T1, 53, 1003]))
+    steps.append(['adv', tick + 20])
   elif template == 'agedtags':
     # a long-lived connection: calls in flight with small tags, then the tag counter is fast-forwarded to a
     # boundary of the tag field (as if that many earlier calls had timed out unanswered), then more calls
@@ -168,13 +230,47 @@ def _gen_script(rng, i):
   return s
 
 
+def _decorate(rng, s):
+  """Second-order variations applied to a generated script: another interface (with two-way void calls
+  sprinkled between the traced calls), and large requests (tens of KiB: several partial writes under
+  back-pressure, frames above the transports' size thresholds)."""
+  k = rng.random()
+  if k < 0.12:
+    s['iface'] = 'base'
+    st = []
+    for op in s['steps']:
+      st.append(op)
+      if op[0] == 'issue' and rng.random() < 0.5:
+        st.append(['vping', rng.choice([203, 1003])])
+        if rng.random() < 0.5:
+          st.append(['adv', 10])
+    s['steps'] = st
+  elif k < 0.22:
+    big = rng.choice([1500, 16500, 20000, 66000])
+    for op in s['steps']:
+      if op[0] == 'issue' and rng.random() < 0.5:
+        op.append(big if rng.random() < 0.8 else rng.choice([100, 4000]))
+  return s
+
+
 def cases(prop, tier, seed):
   rng = random.Random(7919 * int(seed) + 101)
+  rng2 = random.Random(31 * int(seed) + 7)
   n = 1200 if tier == 'quick' else 24000
-  return [_gen_script(rng, i) for i in range(n)]
+  return [_decorate(rng2, _gen_script(rng, i)) for i in range(n)]
 
 
 # ------------------------------------------------------------------ driver
+import re as _re
+_ARG = _re.compile(r'^c(\d+)(:x*)?$')
+
+
+def _call_of(arg):
+  """Call number of a request argument 'c<N>' or 'c<N>:xxxx...' (padding makes large payloads); -1 otherwise."""
+  m = _ARG.match(arg) if isinstance(arg, str) else None
+  return int(m.group(1)) if m else -1
+
+
 class _Recorder(object):
   def __init__(self, loop, net, kind='thrift'):
     from harness.simgevent.vloop import EPOCH
@@ -184,6 +280,8 @@ class _Recorder(object):
     self.epoch = EPOCH
     self.ev = []
     self.calls = {}     # c -> dict(ar, obs, done)
+    self.args = {}      # c -> the argument the call was issued with
+    self.method = 'hi' 
     net.listeners.append(self.on_net)
     loop.on_quantum = self.poll
 
@@ -198,7 +296,7 @@ class _Recorder(object):
     from scales.message import TimeoutError as STimeout
     ex = ar.exception
     if ar.successful() and ex is None:
-      return 'value', 1 if ar.value == 'echo:c%d' % c else 0
+      return 'value', 1 if ar.value == 'echo:' + self.args.get(c, 'c%d' % c) else 0
     if isinstance(ex, STimeout):
       return 'timeout', 0
     return 'error', 0
@@ -266,8 +364,8 @@ class _Recorder(object):
       else:
         call = peers.tbin_decode_call(frame)
       arg = (call or {}).get('arg')
-      if isinstance(arg, str) and arg.startswith('c') and arg[1:].isdigit():
-        self.ev.append({'e': 'Wire', 'conn': e['conn'], 'c': int(arg[1:]), 'tag': tag, 't': self.ms()})
+      if _call_of(arg) >= 0:
+        self.ev.append({'e': 'Wire', 'conn': e['conn'], 'c': _call_of(arg), 'tag': tag, 't': self.ms()})
 
   def on_net(self, e):
     k = e['kind']
@@ -275,12 +373,10 @@ class _Recorder(object):
       self._wire(e)
     elif k == 'srv_recv':
       arg = e.get('arg')
-      c = -1
-      if isinstance(arg, str) and arg.startswith('c') and arg[1:].isdigit():
-        c = int(arg[1:])
+      c = _call_of(arg)
       self.ev.append({'e': 'SrvRecv', 'conn': e['conn'], 'c': c, 'tag': e['tag'] if e.get('tag') is not None else -1,
-                      'argOk': 1 if (e.get('ok') and c >= 0) else 0,
-                      'methodOk': 1 if e.get('method') == 'hi' and e.get('mtype') == 1 else 0, 't': self.ms()})
+                      'argOk': 1 if (e.get('ok') and c >= 0 and arg == self.args.get(c)) else 0,
+                      'methodOk': 1 if e.get('method') == self.method and e.get('mtype') == 1 else 0, 't': self.ms()})
     elif k == 'srv_discard':
       self.ev.append({'e': 'Discard', 'conn': e['conn'], 'tag': e['which'], 't': self.ms()})
     elif k == 'close':
@@ -294,6 +390,9 @@ def build_client(script, loop, net):
   from scales.core import ScalesUriParser
   from scales.loadbalancer.zookeeper import Endpoint
   from test.scales.thrift.gen_py.hello import Hello
+  if script.get('iface') == 'base':
+    # a hand-written interface with a two-way void method: string echo(1: string s), void ping(), ...
+    from harness.gen_py_x.base import Base as Hello
 
   class DynProvider(ServerSetProvider):
     def __init__(self, eps):
@@ -357,8 +456,17 @@ def run_case(script):
   if script['kind'] == 'thrift':
     peer = peers.ThriftPeer(net, auto_delay=auto)
   else:
-    peer = peers.MuxPeer(net, auto_delay=auto)
+    peer = peers.MuxPeer(net, auto_delay=auto, ping_delay=script.get('ping_delay', 0) / 1000.0)
   net.peer_factory = lambda c: peer
+  if script.get('libev'):
+    # the event-loop discipline of libev: I/O and timers that are due in one iteration are all handled before the
+    # run queue is served, and a reader parked on a socket runs inside the event that made it readable
+    loop.timer_batch = True
+    net.direct_wake = True
+  if script.get('tiebreak') is not None:
+    # timers due at the same virtual instant fire in a scripted order instead of start order
+    tb = random.Random(script['tiebreak'])
+    loop.timer_tiebreak = lambda due: tb.randrange(len(due))
   plans = [list(p) for p in script['plans']] + [['ok', 0]] * 4
 
   def on_connect_start(conn):
@@ -373,6 +481,9 @@ def run_case(script):
       conn.connect_plan = (p[0], p[1] / 1000.0)
   net.on_connect_start = on_connect_start
   rec = _Recorder(loop, net, script['kind'])
+  if script.get('iface') == 'base':
+    rec.method = 'echo'
+    peer.void_methods = ('ping',)
   h = build_client(script, loop, net)
   loop.settle()
   max_deadline = T0
@@ -384,6 +495,8 @@ def run_case(script):
       if cl is None:
         continue
       c, T = op[1], op[2]
+      arg = 'c%d' % c + (':' + 'x' * op[3] if len(op) > 3 and op[3] else '')
+      rec.args[c] = arg
       rec.ev.append({'e': 'Issue', 'c': c, 'T': T, 't': rec.ms()})
       max_deadline = max(max_deadline, rec.ms() + T)
       # odd calls: MessageDispatcher.DispatchMethodCall with an explicit timeout; even calls: the
@@ -392,13 +505,13 @@ def run_case(script):
       old = d._dispatch_timeout
       try:
         if c % 2:
-          ar = d.DispatchMethodCall('hi', ('c%d' % c,), {}, timeout=T / 1000.0)
+          ar = d.DispatchMethodCall(rec.method, (arg,), {}, timeout=T / 1000.0)
         elif c % 4 == 0:
           d._dispatch_timeout = T / 1000.0
-          ar = cl.hi_async(test_data='c%d' % c)        # keyword argument
+          ar = getattr(cl, rec.method + '_async')(**{'test_data' if rec.method == 'hi' else 's': arg})   # keyword argument
         else:
           d._dispatch_timeout = T / 1000.0
-          ar = cl.hi_async('c%d' % c)
+          ar = getattr(cl, rec.method + '_async')(arg)
       except Exception as ex:
         from scales.asynchronous import AsyncResult
         ar = AsyncResult()
@@ -406,6 +519,14 @@ def run_case(script):
       finally:
         d._dispatch_timeout = old
       rec.track(c, ar)
+    elif k == 'vping':
+      # a two-way void call without arguments (answered by the peer at once); not one of the traced calls
+      cl = h['client']
+      if cl is not None and script.get('iface') == 'base':
+        try:
+          cl._dispatcher.DispatchMethodCall('ping', (), {}, timeout=op[1] / 1000.0)
+        except Exception:
+          pass
     elif k == 'reply':
       un = [p for p in peer.unanswered() if not p.conn.closed and p.reply is not None]
       if un:
@@ -415,7 +536,7 @@ def run_case(script):
       if un:
         p = un[op[1] % len(un)]
         if op[2] == 'appexc':
-          peer.release(p, payload=peers.tbin_encode_appexc('hi', 'boom', p.call.get('seqid', 0)))
+          peer.release(p, payload=peers.tbin_encode_appexc(rec.method, 'boom', p.call.get('seqid', 0)))
         else:
           peer.release(p, payload=b'\x00\x01garbage')
     elif k == 'stepq':
